@@ -93,6 +93,7 @@ type wsess struct {
 	lastReqElec *spb.Uint128
 	opByID      map[uint64]abs.Op
 	failedDel   map[uint64]bool
+	firstParams *spb.SessionParameters
 	nelec       int          // election responses written on this stream
 	prevElec    *spb.Uint128 // the id the previous election response carried (before any misreporting)
 	closed      bool
@@ -252,7 +253,12 @@ func (w *wstream) Recv() (*spb.ModifyRequest, error) {
 		m = inbound(m, s.rec.names)
 		if s.rec.fault == "acceptRepeatedParams" && m.GetParams() != nil {
 			s.nparams++
-			if s.nparams > 1 {
+			if s.nparams == 1 {
+				s.firstParams = proto.Clone(m.GetParams()).(*spb.SessionParameters)
+			}
+			// (the likely real form of the fault: a verbatim repeat of what was negotiated is waved through, a repeat
+			// that tries to change something is still refused by the server)
+			if s.nparams > 1 && proto.Equal(m.GetParams(), s.firstParams) {
 				// the faulty server accepts repeated session parameters
 				w.GRIBI_ModifyServer.Send(&spb.ModifyResponse{SessionParamsResult: &spb.SessionParametersResult{Status: spb.SessionParametersResult_OK}})
 				// what crossed the wire: the message, answered OK, the session still open
@@ -722,6 +728,33 @@ func ProbeLeaksResults(fault string) (bool, error) {
 	case <-time.After(2 * time.Second):
 		return false, nil
 	}
+}
+
+// ProbeAcceptsRepeatedParams reports whether a node wrapped by the given fault answers a verbatim repeat of the negotiated
+// session parameters with OK (evidence that the wrapper is faulty as intended, whatever the test sends).
+func ProbeAcceptsRepeatedParams(fault string) (bool, error) {
+	n, err := newNode(nullSink{}, true, fault, Names{DefaultNI: srvDefault, VRF: "NON-DEFAULT-VRF"})
+	if err != nil {
+		return false, err
+	}
+	defer n.stop()
+	ctx, cancel := context.WithTimeout(context.Background(), 20*time.Second)
+	defer cancel()
+	st, err := spb.NewGRIBIClient(n.conn).Modify(ctx)
+	if err != nil {
+		return false, err
+	}
+	params := &spb.ModifyRequest{Params: &spb.SessionParameters{Redundancy: spb.SessionParameters_SINGLE_PRIMARY, Persistence: spb.SessionParameters_PRESERVE}}
+	for i := 0; i < 2; i++ {
+		if err := st.Send(proto.Clone(params).(*spb.ModifyRequest)); err != nil {
+			return false, nil
+		}
+		m, err := st.Recv()
+		if err != nil || m.GetSessionParamsResult().GetStatus() != spb.SessionParametersResult_OK {
+			return false, nil
+		}
+	}
+	return true, nil
 }
 
 func newNode(sink ribdrv.Sink, fwd bool, fault string, names Names) (*node, error) {
